@@ -302,7 +302,8 @@ def state_digest(fr, with_data=True):
 
 
 def state_fields(fr, with_noise=True):
-    d = {"fs": np.array(fr.fs, copy=True), "ts": np.array(fr.ts, copy=True), "shape": tuple(fr.shape), "df": fr.df,
+    d = {"fs": np.array(fr.fs, copy=True), "ts": np.array(fr.ts, copy=True), "ts_ext": np.array(fr.ts_ext, copy=True),
+         "shape": tuple(fr.shape), "df": fr.df,
          "dt": fr.dt, "fch1": fr.fch1, "ascending": fr.ascending, "t_start": fr.t_start, "source_name": fr.source_name,
          "metadata": copy.deepcopy(fr.metadata), "rng": repr(fr.rng.bit_generator.state), "fmin": fr.fmin, "fmax": fr.fmax}
     if with_noise:
